@@ -145,6 +145,7 @@ type run struct {
 	signed   bool
 	verified bool
 	size     int64
+	viols    []string // violation lines of this run
 }
 
 func (r *run) mode() string {
@@ -177,8 +178,22 @@ func violation(key, format string, args ...any) {
 }
 
 func (r *run) violation(what, format string, args ...any) {
+	violMu.Lock()
+	before := len(violations)
+	violMu.Unlock()
 	violation(r.path+":"+r.c.name+":"+what, r.variant()+" "+format, args...)
+	violMu.Lock()
+	if len(violations) > before {
+		r.viols = append(r.viols, violations[len(violations)-1])
+	}
+	violMu.Unlock()
 }
+
+// transient: violations that did not repeat when the same case was run again
+// on its own (the first pass runs cases in parallel; a failure that depends on
+// machine load or on an unlucky schedule is recorded, never reported as a
+// verdict about the tree)
+var transient []string
 
 var (
 	serverProc   *exec.Cmd
@@ -885,6 +900,63 @@ func main() {
 	close(jobs)
 	wg.Wait()
 
+	// a failing case is believed only if it fails again on its own, twice
+	for _, r := range runs {
+		if len(r.viols) == 0 {
+			continue
+		}
+		first := r.viols
+		repeats := 0
+		var last *run
+		for attempt := 0; attempt < 2; attempt++ {
+			r2 := &run{c: r.c, key: r.key, digest: r.digest, path: r.path, inPlace: r.inPlace}
+			r2.execute()
+			last = r2
+			// the re-run's own lines are dropped from the global list either way
+			violMu.Lock()
+			drop := map[string]bool{}
+			for _, v := range r2.viols {
+				drop[v] = true
+			}
+			var keep []string
+			for _, v := range violations {
+				if drop[v] {
+					drop[v] = false
+					continue
+				}
+				keep = append(keep, v)
+			}
+			violations = keep
+			violMu.Unlock()
+			if len(r2.viols) > 0 {
+				repeats++
+			}
+		}
+		if repeats == 2 {
+			continue // stands as reported
+		}
+		violMu.Lock()
+		drop := map[string]bool{}
+		for _, v := range first {
+			drop[v] = true
+		}
+		var keep []string
+		for _, v := range violations {
+			if drop[v] {
+				drop[v] = false
+				transient = append(transient, v)
+				continue
+			}
+			keep = append(keep, v)
+		}
+		violations = keep
+		violMu.Unlock()
+		if last != nil && len(last.viols) == 0 {
+			r.signed, r.verified, r.size = last.signed, last.verified, last.size
+		}
+		r.viols = nil
+	}
+
 	// standalone against remote: both verify, same size +-64 bytes
 	type pairKey struct {
 		c                 string
@@ -938,7 +1010,10 @@ func main() {
 		fmt.Println(v)
 	}
 	ncases := len(runs)
-	fmt.Printf("CLI-DONE cases=%d commands=%d violations=%d\n", ncases, commands.Load(), len(violations))
+	for _, v := range transient {
+		fmt.Println(strings.Replace(v, "CLI-VIOLATION", "CLI-TRANSIENT", 1))
+	}
+	fmt.Printf("CLI-DONE cases=%d commands=%d violations=%d transient=%d\n", ncases, commands.Load(), len(violations), len(transient))
 	if os.Getenv("C01CLI_TIMING") != "" {
 		fmt.Fprintf(os.Stderr, "elapsed %.1fs\n", time.Since(start).Seconds())
 	}
